@@ -25,7 +25,7 @@ def check(run):
                         '(geometries where they matter are emitted as "not asserted")',
                         'zlib/Adler-32: stored-block streams are written by the specification; other compression levels come from '
                         "Python's zlib (trusted) and are substituted into the slot the specification designates"]
-    res = run.tlc('Geometry', 'Geometry_quick', workers=min(8, core.NPROC))
+    res = run.tlc('Geometry', 'Geometry_quick' if run.tier == 'quick' else 'Geometry_thorough', workers=min(8, core.NPROC))
     pairs = asserted = 0
     for case in run.cases(res.out):
         mode = case['mode']
